@@ -31,6 +31,14 @@ EXTRA = [
     ('let tags = Resources.*.Tags\nrule e0 {\n  %tags !empty <<tags>>\n}\nrule e1 {\n  not %tags empty <<no tags>>\n}\nrule e2 {\n  %tags empty <<has tags>>\n}\nrule e3 {\n  not %tags !empty <<nn>>\n}\n'
      'rule e4 {\n  some %tags !empty <<some>>\n  not some %tags empty <<ns>>\n}\n', {"Resources": {"a": {"Tags": [1]}, "b": {"Tags": []}, "c": {"Tags": [2, 3]}, "d": {"Other": 1}}}),
     ('rule f0 {\n  not Resources.*[ Tags exists ] empty <<flt>>\n  Resources.*[ Tags !empty ].Tags !empty <<t>>\n  not Resources.*[ Other exists ].Tags !empty <<o>>\n}\n', {"Resources": {"a": {"Tags": [1]}, "b": {"Tags": []}, "d": {"Other": 1}}}),
+    # a block whose selection is empty and already remembered (no records under the block: it is SKIPped) inside a rule that FAILs
+    # for another reason, with the variable at file level / rule level, first used by an earlier rule / an earlier clause
+    ("let buckets = Resources.*[ Type == 'Bucket' ]\nrule none {\n  %buckets empty <<no buckets>>\n}\nrule settings {\n  %buckets {\n    Properties.V == 'on' <<v>>\n  }\n  Mode == 'strict' <<mode>>\n}\n"
+     "rule enc {\n  %buckets {\n    Properties.E exists <<e>>\n  }\n}\n", {"Mode": "lax", "Resources": {"q": {"Type": "Queue", "Properties": {}}}}),
+    ("rule settings {\n  let b = Resources.*[ Type == 'Bucket' ]\n  %b empty <<no buckets>>\n  %b {\n    Properties.V == 'on' <<v>>\n  }\n  %b {\n    Properties.W exists\n  }\n  Mode == 'strict' <<mode>>\n}\n",
+     {"Mode": "lax", "Resources": {"q": {"Type": "Queue", "Properties": {}}}}),
+    ("let b = Resources.*[ Type == 'Bucket' ]\nrule first {\n  %b {\n    Properties.V == 'on'\n  }\n  Mode == 'strict' <<mode>>\n}\nrule second {\n  Mode == 'strict' or\n  %b {\n    Properties.V == 'on'\n  }\n}\n"
+     "rule third {\n  when Mode exists {\n    %b {\n      Properties.V == 'on'\n    }\n    Mode == 'strict'\n  }\n}\n", {"Mode": "lax", "Resources": {"q": {"Type": "Queue", "Properties": {}}}}),
 ]
 
 
